@@ -45,3 +45,32 @@ C(TF + ".cook_check", params=SELF,
       "self.auto_reload or called('mtime') == 0",
   ],
   result="bool", serves=["C16"])
+
+
+# ---------------------------------------------------------------------------------------
+# BaseTemplateFile.read (C17): a file's bytes are decoded by the same rule as a bytes body -- with
+# THIS template's default encoding as the last resort -- and the sniffing result is recorded.
+# ---------------------------------------------------------------------------------------
+REC_FIELDS[TF].update({"package_name": "opt[str]", "default_encoding": "str", "default_content_type": "str",
+                       "content_type": "str", "content_encoding": "opt[str]"})
+REXT = {
+    'open': {'result': 'rec:file', 'raises': ['OSError'], 'as': 'open'},
+    'f.read': {'result': 'bytes', 'raises': ['OSError'], 'as': 'fread'},
+    'read_bytes': {'result': 'tuple[str,str,opt[str]]', 'raises': ['UnicodeDecodeError', 'LookupError']},
+}
+C(TF + ".read@body", params=SELF,
+  requires=["self.package_name is None", "self.default_content_type != ''"],
+  ensures=[
+      "ext_call_arg('open', 0, 0) == self.filename and ext_call_arg('open', 0, 1) == 'rb'",
+      # decoded from the file's bytes, with the template's own default encoding
+      "ext_index('read_bytes', 1) == -1 and ext_call_arg('read_bytes', 0, 0) == ext_call_result('fread', 0) "
+      "and ext_call_arg('read_bytes', 0, 1) == self.default_encoding and ext_call_nkwargs('read_bytes', 0) == 0",
+      "result == ext_call_result('read_bytes', 0)[0]",
+      "self.content_encoding == ext_call_result('read_bytes', 0)[1]",
+      "self.content_type == (ext_call_result('read_bytes', 0)[2] or self.default_content_type)",
+  ],
+  raises={'OSError': {}, 'UnicodeDecodeError': {}, 'LookupError': {}},
+  result="str", serves=["C17", "C16"],
+  ghost={'externals': REXT},
+  notes="file system and read_bytes (own contract: contracts/utils_bytes.py) are events of the ghost trace; "
+        "package-relative files are excluded by the precondition")
